@@ -224,3 +224,48 @@ def selftest():
 
 if __name__ == "__main__":
     print(selftest())
+
+
+# ------------------------------------------------------------------ general LIPS volumes (vectorised quadrature)
+_GL_X, _GL_W = np.polynomial.legendre.leggauss(40)
+
+
+def lips_volume(M, masses):
+    """k-body Lorentz-invariant phase-space volume V_k(M; m_1..m_k) up to a constant factor per k:
+    V_2 = q(M;m1,m2)/M ;  V_k = int dmu 2 mu V_{k-1}(mu; m_1..m_{k-1}) q(M; mu, m_k)/M.
+    M and every mass may be arrays broadcastable against each other."""
+    M = np.asarray(M, dtype=float)
+    masses = [np.asarray(x, dtype=float) for x in masses]
+    if len(masses) == 2:
+        return two_body_q(M, masses[0], masses[1]) / M
+    lo = sum(masses[:-1])
+    hi = M - masses[-1]
+    span = np.maximum(hi - lo, 0.0)
+    t = 0.5 * (_GL_X + 1)
+    s = 3 * t * t - 2 * t**3  # flattens the sqrt end points
+    ds = 6 * t - 6 * t * t
+    lo_e = np.expand_dims(np.broadcast_to(lo, np.broadcast(lo, M).shape), -1)
+    span_e = np.expand_dims(np.broadcast_to(span, np.broadcast(lo, M).shape), -1)
+    mu = lo_e + span_e * s
+    sub = lips_volume(mu, [np.expand_dims(np.broadcast_to(x, np.broadcast(x, M).shape), -1) if np.ndim(x) or np.ndim(M) else x for x in masses[:-1]])
+    Me = np.expand_dims(np.broadcast_to(M, np.broadcast(lo, M).shape), -1)
+    mk = np.expand_dims(np.broadcast_to(masses[-1], np.broadcast(lo, M).shape), -1)
+    val = 2 * mu * sub * two_body_q(Me, mu, mk) / Me
+    return np.sum(0.5 * _GL_W * ds * val, axis=-1) * span_e[..., 0]
+
+
+def subsystem_mass_density(m0, masses, subset):
+    """un-normalised density of the invariant mass of the particles in `subset` (indices) for flat n-body phase space"""
+    inside = [masses[i] for i in subset]
+    outside = [masses[i] for i in range(len(masses)) if i not in subset]
+
+    def rho(Mv):
+        Mv = np.asarray(Mv, dtype=float)
+        v_in = lips_volume(Mv, inside) if len(inside) >= 2 else np.ones_like(Mv)
+        if len(outside) == 0:
+            raise ValueError
+        rest = [Mv] + outside
+        v_out = lips_volume(np.full_like(Mv, m0), rest) if len(rest) >= 2 else np.ones_like(Mv)
+        return 2 * Mv * v_in * v_out
+
+    return rho
